@@ -16,6 +16,9 @@ import (
 
 const interval = 15 * time.Second
 
+// dispatchGrace is how long a push waits for one subscriber to take it
+const dispatchGrace = 100 * time.Millisecond
+
 // Helium .
 type Helium struct {
 	sync.Once
@@ -121,10 +124,16 @@ func (h *Helium) dispatch(ctx context.Context, status types.ServiceStatus) {
 				log.WithFunc("helium.dispatch").Errorf(ctx, errors.Errorf("%+v", err), "dispatch %+v failed", key)
 			}
 		}()
+		// subscribers are served one after the other: one that does not read right now must not
+		// hold back the others (and the next registration change), it gets the next push instead
+		grace := time.NewTimer(dispatchGrace)
+		defer grace.Stop()
 		select {
 		case val.ch <- status:
 			return
 		case <-val.ctx.Done():
+			return
+		case <-grace.C:
 			return
 		}
 	}
